@@ -14,6 +14,7 @@ import (
 	"sync/atomic"
 	"time"
 
+	plog "github.com/safing/portbase/log"
 	"github.com/safing/portbase/modules"
 	"github.com/safing/portbase/utils/vhook"
 
@@ -51,6 +52,12 @@ type c15Spec struct {
 	// SetProcs > 0: the child calls runtime.GOMAXPROCS(SetProcs) first of all - before it
 	// configures the microtask limit and before modules.Start()
 	SetProcs int `json:"set_procs,omitempty"`
+	// EarlyPanics > 0: before modules.Start() (the logging system is not started yet) that
+	// many high-priority Run* microtasks panic one after the other; every one logs an
+	// error line from portbase's recovery handler. Each call has to return its panic.
+	EarlyPanics int `json:"early_panics,omitempty"`
+	// LogFlood: see logFloodCheck
+	LogFlood bool `json:"log_flood,omitempty"`
 }
 
 type c15Hist struct {
@@ -168,6 +175,10 @@ func c15Cases(cfg vlib.Cfg) []*c15Spec {
 		if sp.GoMaxProcs == 0 && i%3 == 0 {
 			sp.SetProcs = []int{3, 24, 6, 40}[(i/3)%4] // below and above the value at package init
 		}
+		if sp.GoMaxProcs == 0 && i%4 == 2 {
+			sp.EarlyPanics = 1100 // more than the 1024 lines any of portbase's log buffers holds
+		}
+		sp.LogFlood = sp.GoMaxProcs == 0 && i%8 == 3
 		sp.ParkCheck = sp.GoMaxProcs == 0 && i%4 == 1
 		sp.Restart = sp.GoMaxProcs == 0 && i%8 == 6
 		if i%4 == 3 && sp.GoMaxProcs == 0 {
@@ -398,6 +409,9 @@ func c15Child(dir string, raw []byte) {
 		}
 		h.prb.Enable()
 	}
+	if sp.EarlyPanics > 0 && !h.earlyPanics() {
+		return
+	}
 	h.preStart()
 	if err := modules.Start(); err != nil {
 		h.b.Inconclusive("case %d: modules.Start failed: %v", sp.Case, err)
@@ -429,6 +443,9 @@ func c15Child(dir string, raw []byte) {
 			ok = false
 			break
 		}
+	}
+	if ok && sp.LogFlood {
+		ok = h.logFloodCheck()
 	}
 	if ok {
 		ok = h.repeatedPanicCheck(dir)
@@ -1110,6 +1127,12 @@ waitFin:
 		}
 		if time.Since(lastT) > 2*time.Second && time.Since(lastDL) > 2*time.Second {
 			lastDL = time.Now()
+			if bl, where := blockedInLog(); bl >= sp.Limit && bl == int(modules.VerifMicroTasks()) {
+				h.b.Violation("C15:M2:run-never-returned:blocked-in:"+where+":all-slots-blocked-in-log", fmt.Sprintf("%d panicking microtasks are never concluded: their recovery handlers are blocked in %s writing an error line, they are the only microtasks still counted (limit %d), so the scheduler never hands the log writer its timeslot again", bl, where, sp.Limit),
+					map[string]any{"spec": h.specNoTasks(), "history": hi, "blocked": bl, "limit": sp.Limit})
+				h.b.Finish(h.dir)
+				os.Exit(0)
+			}
 			if reportDeadlocked() {
 				h.b.Violation("C15:M2:run-never-returned:blocked-in:(*ModuleError).Report", fmt.Sprintf("a panicking microtask function has returned but its microtask is never concluded: runMicroTask's recovery handler is blocked acquiring the reporting lock in modules.(*ModuleError).Report and no goroutine holds it (global count %d)", modules.VerifMicroTasks()),
 					map[string]any{"spec": h.specNoTasks(), "history": hi, "counts": h.counts()})
@@ -1423,6 +1446,183 @@ func stuckInRecovery() string {
 	return ""
 }
 
+// blockedInLog returns how many goroutines are, below the recovery handler of
+// runMicroTask, blocked inside portbase's log package (the error line that the handler
+// logs before it concludes the microtask), and the innermost log function of one of them.
+func blockedInLog() (n int, where string) {
+	buf := make([]byte, 8<<20)
+	buf = buf[:runtime.Stack(buf, true)]
+	for _, g := range strings.Split(string(buf), "\n\n") {
+		if !strings.Contains(g, "modules.(*Module).runMicroTask.func1") || !strings.Contains(g, "safing/portbase/log.") {
+			continue
+		}
+		hdr := g
+		if i := strings.Index(g, "\n"); i > 0 {
+			hdr = g[:i]
+		}
+		if !(strings.Contains(hdr, "chan send") || strings.Contains(hdr, "select")) {
+			continue
+		}
+		n++
+		for _, ln := range strings.Split(g, "\n") {
+			if strings.HasPrefix(ln, "github.com/safing/portbase/log.") {
+				if i := strings.LastIndex(ln, "("); i > 0 {
+					ln = ln[:i]
+				}
+				where = strings.TrimPrefix(ln, "github.com/safing/portbase/")
+				break
+			}
+		}
+	}
+	return
+}
+
+// logFloodCheck: the logging system runs as modules.Start() sets it up (the log writer
+// waits for a timeslot from the microtask scheduler). All slots are taken by gated
+// microtasks, so no timeslot is handed out; 1300 error lines are logged (more than the log
+// buffer holds); limit+1 high-priority microtasks panic (their recovery handler logs an
+// error line before it concludes them); then the gate opens. Every Run* call has to return
+// its panic. If calls stay out although the slot holders have returned, the verdict is
+// taken from the goroutine dump and the counter: every microtask that is still counted is
+// a goroutine blocked inside the log package below the recovery handler, and these are at
+// least `limit` - so the scheduler can never hand the log writer its timeslot again and
+// nothing can unblock them.
+func (h *c15H) logFloodCheck() bool {
+	sp := h.sp
+	m := h.mods[0]
+	big := c15BigDelayMs * time.Millisecond
+	gate := make(chan struct{})
+	var begun atomic.Int32
+	var hwg sync.WaitGroup
+	for i := 0; i < sp.Limit; i++ {
+		hwg.Add(1)
+		h.submitted.Add(1)
+		h.expConcl.Add(1)
+		go func() {
+			defer hwg.Done()
+			_ = m.RunMicroTask("floodholder", big, func(context.Context) error { begun.Add(1); <-gate; return nil })
+		}()
+	}
+	for dl := time.Now().Add(20 * time.Second); int(begun.Load()) < sp.Limit && time.Now().Before(dl); {
+		time.Sleep(100 * time.Microsecond)
+	}
+	floodDone := make(chan struct{})
+	go func() {
+		for i := 0; i < 1300; i++ {
+			plog.Errorf("harness log flood line %d", i)
+		}
+		close(floodDone)
+	}()
+	select {
+	case <-floodDone:
+	case <-time.After(2 * time.Second):
+	}
+	n := sp.Limit + 1
+	res := make(chan error, n)
+	for i := 0; i < n; i++ {
+		val := fmt.Sprintf("harness flood panic %d", i)
+		h.expConcl.Add(1)
+		go func() {
+			defer func() {
+				if r := recover(); r != nil {
+					res <- fmt.Errorf("escaped: %v", r)
+				}
+			}()
+			err := m.RunHighPriorityMicroTask("floodpanic", func(context.Context) error { panic(val) })
+			if isP, me := modules.IsPanic(err); !isP || me.PanicValue != val {
+				err = fmt.Errorf("not the panic: %v", err)
+			} else {
+				err = nil
+			}
+			res <- err
+		}()
+	}
+	time.Sleep(20 * time.Millisecond)
+	close(gate)
+	hwg.Wait()
+	got := 0
+	t0 := time.Now()
+	for got < n {
+		select {
+		case err := <-res:
+			got++
+			if err != nil {
+				h.b.Violation("C15:M2:panic-not-returned:log-flood", fmt.Sprintf("Run* of a panicking function during a log flood: %v", err), map[string]any{"spec": h.specNoTasks()})
+				return false
+			}
+		case <-time.After(300 * time.Millisecond):
+			if time.Since(t0) < time.Second {
+				continue
+			}
+			cnt := int(modules.VerifMicroTasks())
+			if bl, where := blockedInLog(); bl >= sp.Limit && bl == cnt {
+				h.b.Violation("C15:M2:run-never-returned:blocked-in:"+where+":all-slots-blocked-in-log", fmt.Sprintf("%d panicking Run* microtasks do not return: their recovery handlers are blocked in %s writing an error line, they are the only microtasks still counted (%d, limit %d), so the scheduler never hands the log writer its timeslot again", bl, where, cnt, sp.Limit),
+					map[string]any{"spec": h.specNoTasks(), "blocked": bl, "global_count": cnt, "limit": sp.Limit})
+				h.b.Finish(h.dir)
+				os.Exit(0)
+			}
+			if time.Since(t0) > 30*time.Second {
+				h.b.Inconclusive("case %d: log flood check: %d of %d panicking Run* calls did not return within 30s", sp.Case, n-got, n)
+				h.b.Finish(h.dir)
+				os.Exit(0)
+			}
+		}
+	}
+	<-floodDone
+	h.b.Count("log_flood_checks", 1)
+	return h.settle("logflood")
+}
+
+// earlyPanics runs before modules.Start(): nothing receives log lines yet, nothing else
+// runs in the child. A Run* call that has not returned after a second, with its goroutine
+// blocked inside the log package below the recovery handler, cannot be unblocked by
+// anything but the start of the logging system, which has not been asked for: the panic
+// is not handed back (and the microtask stays counted).
+func (h *c15H) earlyPanics() bool {
+	m := h.mods[0]
+	for i := 0; i < h.sp.EarlyPanics; i++ {
+		val := fmt.Sprintf("harness early panic %d", i)
+		res := make(chan error, 1)
+		h.expConcl.Add(1)
+		go func() {
+			defer func() {
+				if r := recover(); r != nil {
+					res <- fmt.Errorf("escaped: %v", r)
+				}
+			}()
+			res <- m.RunHighPriorityMicroTask("early", func(context.Context) error { panic(val) })
+		}()
+		select {
+		case err := <-res:
+			if isP, me := modules.IsPanic(err); !isP || me.PanicValue != val {
+				h.b.Violation("C15:M2:panic-not-returned:before-start", fmt.Sprintf("Run* of panicking function %d before modules.Start() returned %v", i, err), map[string]any{"spec": h.specNoTasks()})
+				h.b.Finish(h.dir)
+				return false
+			}
+		case <-time.After(time.Second):
+			for t0 := time.Now(); time.Since(t0) < 20*time.Second; time.Sleep(200 * time.Millisecond) {
+				if len(res) > 0 {
+					break
+				}
+				if n, where := blockedInLog(); n > 0 {
+					h.b.Violation("C15:M2:run-never-returned:blocked-in:"+where+":before-log-start", fmt.Sprintf("panicking Run* microtask no. %d before modules.Start() does not return: the recovery handler of runMicroTask is blocked in %s (logging its error line; the logging system is not started and nothing else runs), the microtask stays counted (global %d)", i+1, where, modules.VerifMicroTasks()),
+						map[string]any{"spec": h.specNoTasks(), "panics_before": i, "blocked_in": where})
+					h.b.Finish(h.dir)
+					os.Exit(0)
+				}
+			}
+			if len(res) == 0 {
+				h.b.Inconclusive("case %d: early panicking Run* no. %d did not return within 20s", h.sp.Case, i)
+				h.b.Finish(h.dir)
+				os.Exit(0)
+			}
+			<-res
+		}
+	}
+	h.b.Count("panicking_microtasks_before_log_start", int64(h.sp.EarlyPanics))
+	return true
+}
+
 // reportDeadlocked: at least one goroutine is blocked acquiring a mutex inside
 // (*ModuleError).Report and no goroutine is anywhere else inside a function that holds
 // that lock: the lock is held by nobody who could release it. This is a deadlock proven
@@ -1464,7 +1664,7 @@ func reportDeadlocked() bool {
 // microtask concluded. When the conclusions are complete but answers are missing for two
 // seconds, unclearedCheck looks for microtasks that ran without a clearance.
 func (h *c15H) settle(where string) bool {
-	checked, stuckChecked := false, false
+	checked, stuckChecked, logChecked := false, false, false
 	t0 := time.Now()
 	for h.granted.Load() != h.submitted.Load() || h.concluded.Load() != h.expConcl.Load() {
 		if c, e := h.concluded.Load(), h.expConcl.Load(); c > e {
@@ -1480,6 +1680,15 @@ func (h *c15H) settle(where string) bool {
 			checked = true
 			if !h.unclearedCheck(where) {
 				return false
+			}
+		}
+		if time.Since(t0) > 3*time.Second && h.concluded.Load() < h.expConcl.Load() && !logChecked {
+			logChecked = true
+			if bl, lw := blockedInLog(); bl >= h.sp.Limit && bl == int(modules.VerifMicroTasks()) {
+				h.b.Violation("C15:M2:run-never-returned:blocked-in:"+lw+":all-slots-blocked-in-log", fmt.Sprintf("%d panicking microtasks are never concluded: their recovery handlers are blocked in %s writing an error line, they are the only microtasks still counted (limit %d)", bl, lw, h.sp.Limit),
+					map[string]any{"spec": h.specNoTasks(), "where": where, "blocked": bl})
+				h.b.Finish(h.dir)
+				os.Exit(0)
 			}
 		}
 		if time.Since(t0) > 15*time.Second && h.concluded.Load() < h.expConcl.Load() && !stuckChecked {
